@@ -94,6 +94,55 @@ pub fn differential(ctx: &Ctx, rep: &mut Report) {
     rep.require("chunks_65535", 100);
 }
 
+/// Inputs whose SHAKE stream has unusually MANY rejected chunks early (found by scanning
+/// candidates with the reference only): they stress any buffering / bulk-squeeze / refill
+/// logic of an implementation, which typical inputs never do. Returns the inputs ordered by
+/// decreasing number of chunks the reference consumes for 512 coefficients.
+pub fn extreme_inputs(seed: u64, candidates: usize, keep: usize) -> Vec<(usize, Vec<u8>)> {
+    use std::sync::Mutex;
+    let best: Mutex<Vec<(usize, Vec<u8>)>> = Mutex::new(vec![]);
+    par_for(64, ncpu(), |w, _| {
+        let mut local: Vec<(usize, Vec<u8>)> = vec![];
+        for i in 0..candidates / 64 {
+            // 40-byte "salt" with a counter, then a short message: the shape verify hashes
+            let mut s = vec![0u8; 40];
+            s[..8].copy_from_slice(&((seed << 40) ^ ((w as u64) << 32) ^ i as u64).to_le_bytes());
+            s[8] = 0x5e;
+            s.extend_from_slice(b"vf");
+            let (_, tr) = spec::hash_to_point_traced(&s, 512);
+            if tr.chunks >= 512 + 58 {
+                local.push((tr.chunks, s));
+            }
+        }
+        best.lock().unwrap().extend(local);
+    });
+    let mut v = best.into_inner().unwrap();
+    v.sort_by(|a, b| b.0.cmp(&a.0));
+    v.truncate(keep);
+    v
+}
+
+pub fn extremes(ctx: &Ctx, rep: &mut Report) {
+    let cands = ctx.sz(6_000_000, 120_000_000);
+    let xs = extreme_inputs(ctx.seed, cands, ctx.sz(3000, 60000));
+    rep.count("candidates_scanned_with_the_reference", cands as u64);
+    let mut maxc = 0;
+    for (chunks, s) in &xs {
+        check(s, rep);
+        maxc = maxc.max(*chunks);
+        rep.nontrivial(s);
+        rep.count("extreme_inputs_checked", 1);
+        if *chunks > 512 + 64 {
+            rep.count("inputs_with_more_than_n_over_8_rejections_512", 1);
+        }
+    }
+    rep.stat_set("max_chunks_consumed_for_512_coefficients", maxc as f64);
+    if let Some((c, s)) = xs.first() {
+        rep.sample(json!({"input": hex(s), "chunks_consumed_for_512_coefficients": c, "typical": 546}));
+    }
+    rep.require("extreme_inputs_checked", 100);
+}
+
 pub fn replay(r: &Value) -> bool {
     let mut rep = Report::new();
     let inp = r["input"].as_str().unwrap_or("");
